@@ -8,6 +8,8 @@ PROP = dict(
                  env=dict(quick=dict(VERIF_CASES=250), thorough=dict(VERIF_CASES=5000))),
             dict(name="amm-ranged", go_test="TestC06Ranged", runner="C06",
                  env=dict(quick=dict(VERIF_CASES=70), thorough=dict(VERIF_CASES=1500))),
+            dict(name="liquidity-keeper", go_test="TestC06Keeper", runner="C06-keeper",
+                 env=dict(quick=dict(VERIF_CASES=16), thorough=dict(VERIF_CASES=500))),
         ],
         exhaustive_in=dict(thorough=True),
         rule="amm-pure: case = one call of the real amm.Deposit / amm.Withdraw / InitialPoolCoinSupply; first every (rx,ry,ps,x,y) in 0..S (ps=0 is the panic path) "
